@@ -19,8 +19,8 @@ def w1Ops : List Op :=
    .harvest "A1" "farm-1"]
 
 theorem w1_genesis : Genesis w1Genesis := by
-  refine ⟨rfl, rfl, rfl, rfl, rfl, ?_, ?_⟩ <;> intro d <;>
-    simp [w1Genesis, Bank.balOf, AMap.getD, AMap.get?, farmAcc, collectorAcc]
+  refine ⟨rfl, rfl, rfl, rfl, rfl, ?_, ?_, rfl, rfl, ?_, ?_, ?_⟩ <;> intro d <;>
+    simp [w1Genesis, Bank.balOf, AMap.getD, AMap.get?, farmAcc, collectorAcc, escrowAcc, govAcc, cpoolOf, cpGet]
 
 /-- the history of the fixed finding F-farm-2 (commit 966aea0): btc/eth 5 each at 1/block from
 height 10; the creator tops up 10 btc in the end block (height 15); the chain runs on past
@@ -35,7 +35,32 @@ def w2Ops : List Op :=
    .adjustPool "A0" "farm-1" (some [("btc", 10)]) none, .endBlocks 11]
 
 theorem w2_genesis : Genesis w2Genesis := by
-  refine ⟨rfl, rfl, rfl, rfl, rfl, ?_, ?_⟩ <;> intro d <;>
-    simp [w2Genesis, Bank.balOf, AMap.getD, AMap.get?, farmAcc, collectorAcc]
+  refine ⟨rfl, rfl, rfl, rfl, rfl, ?_, ?_, rfl, rfl, ?_, ?_, ?_⟩ <;> intro d <;>
+    simp [w2Genesis, Bank.balOf, AMap.getD, AMap.get?, farmAcc, collectorAcc, escrowAcc, govAcc, cpoolOf, cpGet]
+
+/-- a community-pool history: A0 funds the community pool with 5000 btc; proposal 1 (1000 btc
+applied, 50 eth self-bonded, full deposit → voting period) and proposal 2 (200 btc applied, small
+deposit → deposit period); proposal 1 passes (pool farm-1 owned by the distribution module
+account, heights 10..60), proposal 2 misses its deposit (refunded); A1 stakes; the chain runs past
+the pool's end (the remaining budget goes back to the community pool); proposal 1 is passed and
+rejected once more (nothing happens) -/
+def w3Genesis : State :=
+  { height := 10,
+    bank := { bal := [(("A0", "btc"), 10000), (("A0", "eth"), 1000), (("A0", "stake"), 100000000), (("A1", "lpt-1"), 100)] } }
+
+def w3Content1 : Content := { desc := "cp", lpt := "lpt-1", rpb := [("btc", 10), ("eth", 1)], applied := [("btc", 1000)], selfBond := [("eth", 50)] }
+def w3Content2 : Content := { desc := "cp2", lpt := "lpt-1", rpb := [("btc", 10)], applied := [("btc", 200)], selfBond := [] }
+
+def w3Ops : List Op :=
+  [.fundCp "A0" [("btc", 5000)],
+   .cpSubmit "A0" "t" w3Content1 [("stake", 10000000)],
+   .cpSubmit "A0" "t" w3Content2 [("stake", 100000)],
+   .cpPass 1, .cpFailDeposit 2,
+   .stake "A1" "farm-1" "lpt-1" 5, .endBlocks 51,
+   .cpPass 1, .cpReject 1]
+
+theorem w3_genesis : Genesis w3Genesis := by
+  refine ⟨rfl, rfl, rfl, rfl, rfl, ?_, ?_, rfl, rfl, ?_, ?_, ?_⟩ <;> intro d <;>
+    simp [w3Genesis, Bank.balOf, AMap.getD, AMap.get?, farmAcc, collectorAcc, escrowAcc, govAcc, cpoolOf, cpGet]
 
 end Irismod.Proofs.Farm
